@@ -547,14 +547,14 @@ class RatioOfMeans(  # noqa: D101
         if self.alternative == "greater":
             q = self.confidence_level
             effect_size_ci_lower = effect_size + scale*distr.isf(q)
-            means_ratio_ci_lower = means_ratio * math.exp(log_scale * log_distr.isf(q))
+            means_ratio_ci_lower = means_ratio * _exp(log_scale * log_distr.isf(q))
             effect_size_ci_upper = means_ratio_ci_upper = float("+inf")
             pvalue = distr.sf(statistic)
         elif self.alternative == "less":
             q = self.confidence_level
             effect_size_ci_lower = means_ratio_ci_lower = float("-inf")
             effect_size_ci_upper = effect_size + scale*distr.ppf(q)
-            means_ratio_ci_upper = means_ratio * math.exp(log_scale * log_distr.ppf(q))
+            means_ratio_ci_upper = means_ratio * _exp(log_scale * log_distr.ppf(q))
             pvalue = distr.cdf(statistic)
         else:  # two-sided
             q = (1 + self.confidence_level) / 2
@@ -562,7 +562,7 @@ class RatioOfMeans(  # noqa: D101
             effect_size_ci_lower = effect_size - half_ci
             effect_size_ci_upper = effect_size + half_ci
 
-            rel_half_ci = math.exp(log_scale * log_distr.ppf(q))
+            rel_half_ci = _exp(log_scale * log_distr.ppf(q))
             means_ratio_ci_lower = means_ratio / rel_half_ci
             means_ratio_ci_upper = means_ratio * rel_half_ci
 
@@ -688,9 +688,9 @@ class RatioOfMeans(  # noqa: D101
             pooled_var = (
                 (contr_count - 1)*contr_var + (treat_count - 1)*treat_var
             ) / (contr_count + treat_count - 2)
-            scale = math.sqrt(pooled_var/contr_count + pooled_var/treat_count)
+            scale = math.sqrt(max(pooled_var/contr_count + pooled_var/treat_count, 0))
         else:
-            scale = math.sqrt(contr_var/contr_count + treat_var/treat_count)
+            scale = math.sqrt(max(contr_var/contr_count + treat_var/treat_count, 0))
 
         if self.use_t:
             if self.equal_var:
@@ -729,6 +729,13 @@ def _find_boundary(
                 "Maximum number of iterations is reached.",
             )
     return b
+
+
+def _exp(x: float) -> float:
+    try:
+        return math.exp(x)
+    except OverflowError:
+        return float("inf")
 
 
 def _to_seq(x: N | Sequence[N]) -> Sequence[N]:
